@@ -184,7 +184,8 @@ def snapshot_from_store(kind, ex, syms, K, orders, ordinal, QD=1):
 
 def _session(kind, hdr):
     return AcctSession(kind, syms=hdr["syms"], fee=(hdr["FeeNum"], hdr["FeeDen"]), lev=hdr.get("Lev", 1),
-                       start=hdr["Start"], price0=hdr["cur0"], cancel_on_close=hdr["CancelOnClose"], qd=hdr.get("QD", 1))
+                       start=hdr["Start"], price0=hdr["cur0"], cancel_on_close=hdr["CancelOnClose"], qd=hdr.get("QD", 1),
+                       mode=hdr.get("mode", "cross"))
 
 
 def run_history(kind, hdr, ops, last_only=False):
@@ -265,11 +266,11 @@ def tla_bool(b):
 
 FUT_INVARIANTS = ["ReservedBag", "MarginIsReference", "FlatHasNoEntry", "ActiveReported", "ExecutedInExactlyOneTrade",
                   "NoReduceOnlyWhenFlat"]
-FUT_PROPERTIES = ["MTMStep", "ReduceOnlyNeverIncreasesOrFlips", "AvgCostStep", "RejectIff", "SubmitCancelRestores",
+FUT_PROPERTIES = ["MTMStep", "ReduceOnlyNeverIncreasesOrFlips", "AvgCostStep", "FlushPerFill", "RejectIff", "SubmitCancelRestores",
                   "FinalIsFinal", "FinalOpsAreNoOps"]
 SPOT_INVARIANTS = ["NonNegative", "PositionIsBase", "NoShort", "SumsAreActiveSells", "ActiveReported",
                    "ExecutedInExactlyOneTrade"]
-SPOT_PROPERTIES = ["Conservation", "CashStep", "ReserveRelease", "RejectIff", "FinalIsFinal", "FinalOpsAreNoOps"]
+SPOT_PROPERTIES = ["Conservation", "CashStep", "FlushPerFill", "ReserveRelease", "RejectIff", "FinalIsFinal", "FinalOpsAreNoOps"]
 
 
 def model_cfg(kind, inst, export=False, check=True, view="ViewAcct", invariants=None, properties=None):
@@ -380,6 +381,7 @@ def inst_hdr(kind, inst, cur0):
          "CancelOnClose": bool(inst["coc"]), "cur0": cur0}
     if kind == "futures":
         h["Lev"] = inst["lev"]
+        h["mode"] = inst.get("mode", "cross")
     return h
 
 
@@ -554,7 +556,7 @@ def random_histories(kind, specs, procs=12):
 def word(tr):
     """op-kind word of a trace (non-triviality key)"""
     return "".join({"submit": "S", "cancel": "C", "exec": "X", "flush": "F", "cancelall": "A", "prune": "P",
-                    "price": "p"}[e["k"]] + ("!" if e["k"] == "submit" and not e.get("acc", True) else "")
+                    "price": "p", "obs": "o"}[e["k"]] + ("!" if e["k"] == "submit" and not e.get("acc", True) else "")
                    for e in tr["ev"])
 
 
@@ -593,7 +595,7 @@ def fill_kinds(kind, tr):
 
 def nontrivial(kind, tr, prefix_ops=None):
     """DESIGN appendix C: >= 1 fill and >= 1 of {cancel, reduce, flip, rejection, duplicate call}"""
-    w = "".join({"submit": "S", "cancel": "C", "exec": "X", "flush": "F", "cancelall": "A", "prune": "P", "price": "p"}[o["op"]]
+    w = "".join({"submit": "S", "cancel": "C", "exec": "X", "flush": "F", "cancelall": "A", "prune": "P", "price": "p", "obs": "o"}[o["op"]]
                 for o in (prefix_ops or [])) + word(tr)
     fk = fill_kinds(kind, tr)
     return (("X" in w or "F" in w) and ("C" in w or "A" in w or "!" in w or any(
